@@ -262,36 +262,40 @@ func (st *Settings) Read(d []byte) error {
 func (st *Settings) Encode() {
 	st.rawSettings = st.rawSettings[:0]
 
-	if st.tableSize != 0 {
-		st.rawSettings = append(st.rawSettings,
-			byte(HeaderTableSize>>8), byte(HeaderTableSize),
-			byte(st.tableSize>>24), byte(st.tableSize>>16),
-			byte(st.tableSize>>8), byte(st.tableSize),
-		)
-	}
+	// The first four are always sent. Zero is a value a peer has to be told
+	// about for each of them, because it is not what it assumes otherwise: no
+	// dynamic table instead of 4096 octets, no push instead of push, no streams
+	// instead of any number, an empty window instead of 65535 (RFC 7540 6.5.2).
+	st.rawSettings = append(st.rawSettings,
+		byte(HeaderTableSize>>8), byte(HeaderTableSize),
+		byte(st.tableSize>>24), byte(st.tableSize>>16),
+		byte(st.tableSize>>8), byte(st.tableSize),
+	)
 
+	var push byte
 	if st.enablePush {
-		st.rawSettings = append(st.rawSettings,
-			byte(EnablePush>>8), byte(EnablePush),
-			0, 0, 0, 1,
-		)
+		push = 1
 	}
 
-	if st.maxStreams != 0 {
-		st.rawSettings = append(st.rawSettings,
-			byte(MaxConcurrentStreams>>8), byte(MaxConcurrentStreams),
-			byte(st.maxStreams>>24), byte(st.maxStreams>>16),
-			byte(st.maxStreams>>8), byte(st.maxStreams),
-		)
-	}
+	st.rawSettings = append(st.rawSettings,
+		byte(EnablePush>>8), byte(EnablePush),
+		0, 0, 0, push,
+	)
 
-	if st.windowSize != 0 {
-		st.rawSettings = append(st.rawSettings,
-			byte(MaxWindowSize>>8), byte(MaxWindowSize),
-			byte(st.windowSize>>24), byte(st.windowSize>>16),
-			byte(st.windowSize>>8), byte(st.windowSize),
-		)
-	}
+	st.rawSettings = append(st.rawSettings,
+		byte(MaxConcurrentStreams>>8), byte(MaxConcurrentStreams),
+		byte(st.maxStreams>>24), byte(st.maxStreams>>16),
+		byte(st.maxStreams>>8), byte(st.maxStreams),
+	)
+
+	st.rawSettings = append(st.rawSettings,
+		byte(MaxWindowSize>>8), byte(MaxWindowSize),
+		byte(st.windowSize>>24), byte(st.windowSize>>16),
+		byte(st.windowSize>>8), byte(st.windowSize),
+	)
+
+	// Zero is not a frame size (the minimum is 2^14), and a header list size
+	// of zero stands for no limit here: neither is sent.
 
 	if st.frameSize != 0 {
 		st.rawSettings = append(st.rawSettings,
